@@ -129,6 +129,7 @@ LIB_MODE_TEXT = {
     "io": "substdio input (buffers 1..9 x streams <=10 bytes x every read-size schedule x EINTR/error variants x 8 consumer patterns incl. getln), "
           "substdio output (short writes, a failing write at every call), substdio_copy return codes",
     "bytes": "byte_copy/byte_copyr at every overlap, byte_chr/rchr, str_*/case_* on every string <=4 over {a,B,z,Z,@,[,`,{,NUL}, case folding of all 256 bytes",
+    "alloc": "allocation failures: the k-th allocation (k<24) fails once while a stralloc (the GEN_ALLOC growth routine shared by every dynamic array) grows by 1/7/100/1000 bytes x 150 appends; a failed call changes nothing, content exact, claimed capacity never beyond the owned block",
     "num": "fmt_ulong/fmt_uint0/scan_ulong round trips on boundary values, scan_ulong/scan_8long on every digit string <=3 followed by every byte",
     "map": "constmap on all 256 subsets of 8 keys (empty key, case twins, colon data) x 17 probes, split on/off",
     "date": "datetime_tai/datetime_untai/date822fmt/myctime against the calendar for two instants of every day 1970..2109, the last and the first second of every day and 19 edge instants (2^31, 2^32, 29 Feb 2000, 2100)",
@@ -143,7 +144,8 @@ def lib_conformance(res, rd, src, modes, tier, asan):
     against trivial references.  A boundary slip there shows only for inputs that hit the boundary (a read returning exactly
     buffer-size-1 bytes, the letter Z, a control file without a final newline), which program-level enumerations may not contain."""
     extra = [w for w in ["cdb.a", "cdbmss.o", "cdbmake.a", "myctime.o"] if w not in load_line(src, "qmail-send")]
-    exe = compile_harness(src, os.path.join(rd, "c00lib"), [os.path.join(VERIF, "seq/c00_lib.c")], link_target="qmail-send", extra_objs=extra, asan=asan)
+    exe = compile_harness(src, os.path.join(rd, "c00lib"), [os.path.join(VERIF, "seq/c00_lib.c")], link_target="qmail-send", extra_objs=extra, asan=asan,
+                          cflags="-Wl,--wrap=malloc -Wl,--wrap=realloc -Wl,--wrap=free")
     jobs = []
     for m in modes:
         if m == "seek":
